@@ -25,6 +25,7 @@ type PipelineOracle struct {
 	// C11: ids announced per prefix per peer connection (from the wire)
 	wireIDs []map[Prefix]map[uint32]string
 	checkpoints int
+	expNH, expPrepend []bool
 }
 
 type tagOrigin struct {
@@ -48,6 +49,32 @@ func (o *PipelineOracle) Init(w *World) {
 		o.wireIDs[i] = map[Prefix]map[uint32]string{}
 		i := i
 		p.onUpdate = func(p *Peer, c *Conn, u *Update, raw []byte) { o.onWire(w, i, p, c, u, raw) }
+	}
+	// export policies may legitimately override the session rewrites (next hop, further prepends)
+	o.expNH = make([]bool, n)
+	o.expPrepend = make([]bool, n)
+	note := func(pi int, ps *PolicySpec) {
+		if ps == nil || pi < 0 || pi >= n {
+			return
+		}
+		for _, t := range ps.Terms {
+			for _, a := range t.Actions {
+				if a.Kind == "nh" {
+					o.expNH[pi] = true
+				}
+				if a.Kind == "prepend" {
+					o.expPrepend[pi] = true
+				}
+			}
+		}
+	}
+	for i, pc := range w.Plan.Peers {
+		note(i, pc.Export)
+	}
+	for _, s := range w.Plan.Steps {
+		if s.Kind == "export" {
+			note(s.Peer, s.Policy)
+		}
 	}
 	// provenance is known from the plan up front
 	for _, s := range w.Plan.Steps {
@@ -305,7 +332,12 @@ func (o *PipelineOracle) checkpoint(w *World, final bool) {
 					sort.Strings(got[pfx])
 				}
 				if d := diffPrefixSets(exp, got); d != "" {
-					w.Env.Violate("C08", "adjribout_vs_locrib", "peer %s v6=%v: %s", pc.Name, v6, d)
+					as := "adjribout_vs_locrib"
+					if w.Plan.Params["ap_trigger"] == 1 && pc.AddPathTX > 0 && pc.PeerAddPath&1 != 0 {
+						// run that deliberately explores known finding F-C08-1 on this kind of session
+						as = "adjribout_vs_locrib_addpath_unexportable_trigger"
+					}
+					w.Env.Violate("C08", as, "peer %s v6=%v: %s", pc.Name, v6, d)
 				}
 			}
 			// ---- wire stage (C10): the peer's view = Adj-RIB-Out
@@ -339,6 +371,45 @@ func (o *PipelineOracle) checkpoint(w *World, final bool) {
 				}
 			}
 			// ---- C11: distinct paths of a prefix have distinct ids in the Adj-RIB-Out
+			if o.on("C11") && po.HasOut[fi] && pc.AddPathTX > 0 && pc.PeerAddPath&1 != 0 && w.Plan.Params["ap_trigger"] != 1 {
+				// identifier allocation keeps working: every selected, exportable path is stored
+				exp := RefAdjRIBOut(dut, pc, obs.Loc[fi])
+				for pfx, ks := range exp {
+					if len(po.Out[fi][pfx]) < len(ks) {
+						w.Env.Violate("C11", "path_not_stored", "peer %s %s: %d exportable paths selected but only %d stored in the add-path Adj-RIB-Out (identifier allocation failed?)", pc.Name, pfx, len(ks), len(po.Out[fi][pfx]))
+					}
+				}
+			}
+			// C11: a path the peer holds is held under the identifier the Adj-RIB-Out stores for it
+			// (so that a later withdrawal names the identifier the path was announced with)
+			if o.on("C11") && po.HasOut[fi] && p.Established() && po.Est.Con == p.conn {
+				apTX := (v6 && p.opts.AddPathV6) || (!v6 && p.opts.AddPathV4)
+				if fam := famOf(po.Est, v6); apTX && fam != nil && fam.Queued == 0 {
+					for pfx, ps := range po.Out[fi] {
+						for _, c := range ps {
+							want := wireNorm(dut, pc, c)
+							want.PathID = 0
+							wk := want.Key(false)
+							var under []uint32
+							found := false
+							for k, a := range p.View {
+								if k.Pfx != pfx {
+									continue
+								}
+								if wireNorm(dut, pc, CanonFromAttrs(a, 0)).Key(false) == wk {
+									under = append(under, k.PathID)
+									if k.PathID == c.PathID {
+										found = true
+									}
+								}
+							}
+							if !found && len(under) > 0 {
+								w.Env.Violate("C11", "id_differs_between_view_and_adjribout", "peer %s %s: path stored under id %d but announced to the peer under ids %v: %s", pc.Name, pfx, c.PathID, under, wk)
+							}
+						}
+					}
+				}
+			}
 			if o.on("C11") && po.HasOut[fi] {
 				for pfx, ps := range po.Out[fi] {
 					seen := map[uint32]string{}
@@ -401,14 +472,12 @@ func (o *PipelineOracle) onWire(w *World, pi int, p *Peer, c *Conn, u *Update, r
 	ann := append(append([]NLRI(nil), u.NLRI...), u.MPReach...)
 	wd := append(append([]NLRI(nil), u.Withdrawn...), u.MPUnreach...)
 	// C11: a withdrawal names an id under which the prefix is currently announced
-	if o.on("C11") {
-		for _, n := range wd {
-			if _, ok := p.View[viewKey{n.Prefix, n.PathID}]; !ok {
-				apTX := (n.Prefix.V6 && p.opts.AddPathV6) || (!n.Prefix.V6 && p.opts.AddPathV4)
-				if apTX {
-					w.Env.Violate("C11", "withdraw_unknown_id", "peer %s: withdrawal of %s id %d which is not announced (announced ids: %v)", pc.Name, n.Prefix, n.PathID, idsFor(p, n.Prefix))
-				}
-			}
+	// (a withdrawal that names an id which is not announced is judged at the next quiescent
+	// point: C11 compares ids between view and Adj-RIB-Out there; a withdrawal overtaking its
+	// still queued announcement is C10's business)
+	for _, n := range wd {
+		if _, ok := p.View[viewKey{n.Prefix, n.PathID}]; !ok {
+			w.Env.probe("withdraw_of_unannounced_key")
 		}
 	}
 	if len(ann) == 0 || !o.on("C09") {
@@ -455,20 +524,42 @@ func (o *PipelineOracle) onWire(w *World, pi int, p *Peer, c *Conn, u *Update, r
 		}
 		if !pc.RSClient {
 			first := uint32(0)
+			inFirst := false
 			if len(a.ASPath) > 0 && a.ASPath[0].Type == 2 && len(a.ASPath[0].ASNs) > 0 {
 				first = a.ASPath[0].ASNs[0]
+				for _, x := range a.ASPath[0].ASNs {
+					if x == dut.LocalAS {
+						inFirst = true
+					}
+				}
 			}
-			if first != dut.LocalAS {
+			if first != dut.LocalAS && !(o.expPrepend[pi] && inFirst) {
 				viol("no_local_as_prepended", "AS_PATH %s does not start with the local ASN %d", cp.ASPathString(), dut.LocalAS)
 			}
-			if cp.NextHop != "10.0.0.254" {
+			if cp.NextHop != "10.0.0.254" && !o.expNH[pi] {
 				viol("next_hop_not_self", "next hop %s is not the local address", cp.NextHop)
 			}
 		}
 		if rolesActive(pc) {
 			pr := *pc.PeerRole
-			if a.HasOTC && (pr == roleProvider || pr == rolePeer || pr == roleRS) {
+			// RFC 9234 5, egress rule 2: a route that already contains OTC (received with it, or marked at
+			// ingress because it came from a provider, peer or RS) is not sent to providers, peers, RSes.
+			// Towards a peer the local AS adds OTC itself (rule 1), so OTC as such is expected there.
+			marked := false
+			if known {
+				src := w.Peers[org.Peer].Cfg
+				if org.Attr.OTC != nil {
+					marked = true
+				}
+				if rolesActive(src) && (*src.PeerRole == roleProvider || *src.PeerRole == rolePeer || *src.PeerRole == roleRS) {
+					marked = true
+				}
+			}
+			if a.HasOTC && (pr == roleProvider || pr == roleRS) {
 				viol("otc_to_provider_peer_rs", "route with OTC advertised to a %s", roleName(pr))
+			}
+			if marked && (pr == roleProvider || pr == rolePeer || pr == roleRS) {
+				viol("otc_to_provider_peer_rs", "route that already carried OTC (from %s) advertised to a %s", w.Peers[org.Peer].Cfg.Name, roleName(pr))
 			}
 			if !a.HasOTC && (pr == roleCustomer || pr == rolePeer || pr == roleRSClient) {
 				viol("otc_not_added", "route without OTC advertised to a %s", roleName(pr))
